@@ -274,6 +274,11 @@ func main() {
 	}
 	var workers int
 	fmt.Sscan(os.Args[3], &workers)
+	if len(os.Args) > 4 && os.Args[4] == "export" {
+		f.Close()
+		exportMode(os.Args[1], os.Args[2], workers)
+		return
+	}
 	dir, err := os.MkdirTemp(os.Getenv("VERIF_SCRATCH"), "engine")
 	if err != nil {
 		panic(err)
